@@ -33,6 +33,25 @@ fn has_slot(p: &J) -> bool {
     ["principal", "resource"].iter().any(|k| p[*k][0].as_str().map(|t| t.ends_with("slot")).unwrap_or(false))
 }
 
+/// PolicySet::to_cedar(): absent, or text that must parse back to the same policies (ids are not part of Cedar text)
+fn set_to_cedar(s: &PolicySet) -> J {
+    match s.to_cedar() {
+        None => json!(["none"]),
+        Some(t) => match t.parse::<PolicySet>() {
+            Err(x) => json!(["unparsable", t, x.to_string()]),
+            Ok(s2) => {
+                let strip = |mut o: J| {
+                    o.as_object_mut().map(|m| m.remove("id"));
+                    o
+                };
+                let mut v: Vec<J> = s2.policies().map(|q| strip(proj_policy(q))).chain(s2.templates().map(|q| strip(proj_template(q)))).collect();
+                v.sort_by_key(|x| x.to_string());
+                json!(["ok", v])
+            }
+        },
+    }
+}
+
 pub fn run(case: &J) -> R<J> {
     let p = &case["policy"];
     let text = render::policy_text(p)?;
@@ -85,6 +104,21 @@ pub fn run(case: &J) -> R<J> {
             ps.encode().map_err(|x| x.to_string()).and_then(|b| PolicySet::decode(&b[..]).map_err(|x| x.to_string())).map(|s| json!({"view": view(&s)})).unwrap_or_else(e),
         );
         hops.insert("set_pst".into(), ps.to_pst().map_err(|x| x.to_string()).and_then(|x| PolicySet::from_pst(x).map_err(|x| x.to_string())).map(|s| json!({"view": view(&s)})).unwrap_or_else(e));
+        // a set with a link cannot be written as Cedar text, whichever way the set was built
+        let mut tc = Map::new();
+        tc.insert("text".into(), set_to_cedar(&ps));
+        if let Ok(s2) = ps.clone().to_json().map_err(|x| x.to_string()).and_then(|j| PolicySet::from_json_value(j).map_err(|x| x.to_string())) {
+            tc.insert("json".into(), set_to_cedar(&s2));
+            tc.insert("json_link".into(), json!(s2.policy(&PolicyId::new("l")).map(|l| l.to_cedar().is_some())));
+        }
+        if let Ok(s2) = ps.to_pst().map_err(|x| x.to_string()).and_then(|x| PolicySet::from_pst(x).map_err(|x| x.to_string())) {
+            tc.insert("pst".into(), set_to_cedar(&s2));
+        }
+        if let Ok(s2) = ps.encode().map_err(|x| x.to_string()).and_then(|b| PolicySet::decode(&b[..]).map_err(|x| x.to_string())) {
+            tc.insert("proto".into(), set_to_cedar(&s2));
+        }
+        tc.insert("text_link".into(), json!(ps.policy(&PolicyId::new("l")).map(|l| l.to_cedar().is_some())));
+        hops.insert("to_cedar".into(), J::Object(tc));
     } else {
         let q0 = Policy::parse(Some(id.clone()), &text).map_err(|x| format!("policy parse: {x}\n{text}"))?;
         p0 = proj_policy(&q0);
@@ -106,6 +140,18 @@ pub fn run(case: &J) -> R<J> {
             ps.encode().map_err(|x| x.to_string()).and_then(|b| PolicySet::decode(&b[..]).map_err(|x| x.to_string())).map(|s| view(&s)).unwrap_or_else(e),
         );
         hops.insert("set_pst".into(), ps.to_pst().map_err(|x| x.to_string()).and_then(|x| PolicySet::from_pst(x).map_err(|x| x.to_string())).map(|s| view(&s)).unwrap_or_else(e));
+        let mut tc = Map::new();
+        tc.insert("text".into(), set_to_cedar(&ps));
+        if let Ok(s2) = ps.clone().to_json().map_err(|x| x.to_string()).and_then(|j| PolicySet::from_json_value(j).map_err(|x| x.to_string())) {
+            tc.insert("json".into(), set_to_cedar(&s2));
+        }
+        if let Ok(s2) = ps.to_pst().map_err(|x| x.to_string()).and_then(|x| PolicySet::from_pst(x).map_err(|x| x.to_string())) {
+            tc.insert("pst".into(), set_to_cedar(&s2));
+        }
+        if let Ok(s2) = ps.encode().map_err(|x| x.to_string()).and_then(|b| PolicySet::decode(&b[..]).map_err(|x| x.to_string())) {
+            tc.insert("proto".into(), set_to_cedar(&s2));
+        }
+        hops.insert("to_cedar".into(), J::Object(tc));
     }
     // the JSON obtained directly from the text (CST -> EST) converts back to the same policy
     hops.insert(
